@@ -339,7 +339,7 @@ class Fn:
         self.fault_at = fault["at"] if fault else None
         self.fault_exc = None
         if fault:
-            self.fault_exc = make_exc(fault["exc"], f"planned:{name}")
+            self.fault_exc = make_exc(fault["exc"], f"planned:{name}", side)
             ctx.planned[name] = self.fault_exc
         self.fl = spec.get("fl", "def") if side == "a" else "def"
         self.seen_args = []
